@@ -19,7 +19,25 @@ def main():
     replay = None
     if args.replay:
         replay = json.load(open(args.replay, encoding="utf-8"))
-    rc = mod.run(args.tier, seed, replay=replay)
+    try:
+        rc = mod.run(args.tier, seed, replay=replay)
+    except SystemExit:
+        raise
+    except BaseException as e:  # pylint: disable=broad-except
+        # The check could not be completed: code of geoffxy/conductor that the harness drives raised something the
+        # harness does not know how to judge (or the harness itself no longer fits the code).  The property is then no
+        # longer shown to hold, which is reported as a violation without a failing input.
+        import traceback
+
+        tb = traceback.format_exc()
+        sys.stderr.write(tb)
+        from common import Check
+
+        chk = Check(args.prop, args.tier, seed)
+        chk.coverage["rule"] = "the check aborted before it could finish"
+        chk.violation("check-aborted", "the check could not be completed (%s: %s); the property is no longer shown to hold" % (type(e).__name__, str(e)[:200]),
+                      {"theorem_or_tie": "harness/%s.py (correspondence / oracle run)" % args.prop.lower(), "traceback": tb[-4000:]}, found_input=False)
+        rc = chk.finish()
     sys.stdout.flush()
     sys.exit(rc)
 
